@@ -5,7 +5,7 @@
 use crate::hgen::{self, Plan, Workload, occupied_formula, out_info};
 use ckb_store::ChainStore;
 use ckb_types::core::EpochExt;
-use ckb_types::packed::{self, CellbaseWitness};
+use ckb_types::packed::CellbaseWitness;
 use ckb_types::prelude::*;
 use serde_json::{Value, json};
 use std::collections::HashMap;
@@ -76,8 +76,6 @@ pub struct BlockSummary {
     pub record: Value,
     /// hash of the economics of the block (for the distinct-cases counter)
     pub econ_hash: u64,
-    pub n_txs: usize,
-    pub dao_kinds: Vec<&'static str>,
 }
 
 /// One record per generated block (the block must have been accepted by the builder node B;
@@ -237,7 +235,6 @@ pub fn block_record(tg: &TreeGen, wl: &Workload, x: &H) -> BlockSummary {
         uncles.iter().map(|u| u["proposals"].as_array().unwrap().len()).sum::<usize>(),
         dao_kinds
     );
-    let n_txs = txs.len();
     let record = json!({
         "t": "block",
         "number": number,
@@ -259,12 +256,5 @@ pub fn block_record(tg: &TreeGen, wl: &Workload, x: &H) -> BlockSummary {
     BlockSummary {
         record,
         econ_hash: vbase::fnv1a(econ.as_bytes()),
-        n_txs,
-        dao_kinds,
     }
-}
-
-#[allow(dead_code)]
-pub fn script_args_len(script: &packed::Script) -> usize {
-    script.args().raw_data().len()
 }
